@@ -57,6 +57,21 @@ def load_units():
     return units
 
 
+def annotate_loops(body, loops, exlog):
+    """R5: a `for P in E {` header named by a //@loop directive becomes `for P in it: E invariant .. {`
+    (ghost iterator name + invariant clauses; the pattern and the iterated expression are unchanged)."""
+    for header, inv in loops:
+        if body.count(header) != 1:
+            raise extract.ExtractError(f"loop header `{header}`: expected exactly one match, found {body.count(header)}")
+        m = re.match(r"\s*for\s+(.+?)\s+in\s+(.+?)\s*\{\s*$", header)
+        if not m:
+            raise extract.ExtractError(f"loop header `{header}` is not a `for P in E {{` header")
+        new = f"for {m.group(1)} in it: {m.group(2)}\n    invariant\n" + "\n".join(inv) + "\n    {"
+        body = body.replace(header, new)
+        exlog["rules_applied"].append({"where": "loop annotation", "loop_header": header, "invariant_clauses": len(inv)})
+    return body
+
+
 def build(unit):
     """Instantiate the template. Returns dict(text, extraction log, errors)."""
     lines = open(unit.path).read().split("\n")
@@ -80,6 +95,7 @@ def build(unit):
             is_slice = st.startswith("//@slice")
             d = kv(st)
             clauses, sig, pre, post, drops, wrap = [], "", [], [], [], ""
+            loops = []  # [(header text, [invariant clause lines])]
             i += 1
             while i < len(lines) and lines[i].strip() != "//@end":
                 l = lines[i].strip()
@@ -95,6 +111,13 @@ def build(unit):
                     drops.append(l[len("//@drop"):].strip())
                 elif l.startswith("//@wrap"):
                     wrap = l[len("//@wrap"):].strip()
+                elif l.startswith("//@loop"):
+                    loops.append((l[len("//@loop"):].strip(), []))
+                elif l.startswith("//@~"):
+                    if not loops:
+                        errors.append(f"{unit.path}:{i+1}: //@~ without //@loop")
+                    else:
+                        loops[-1][1].append("        " + l[4:].rstrip())
                 elif l:
                     errors.append(f"{unit.path}:{i+1}: unexpected line inside directive: {l}")
                 i += 1
@@ -102,7 +125,7 @@ def build(unit):
             try:
                 src, masked = load(d["file"])
                 if is_slice:
-                    s, e = extract.extract_slice(src, masked, d["fn"], d["start"], d["end"], exact=d.get("exact") == "1")
+                    s, e = extract.extract_slice(src, masked, d["fn"], d["start"], d["end"], exact=d.get("exact") == "1", end_last=d.get("endlast") == "1")
                     body = src[s:e]
                     where = f"{d['file']}:{extract.line_of(src, s)}-{extract.line_of(src, e)} slice of {d['fn']}"
                     body = extract.transform(body, exlog["rules_applied"], where)
@@ -125,6 +148,7 @@ def build(unit):
                         body = re.sub(r"\bfn\s+" + re.escape(a) + r"\b", "fn " + b, body, count=1)
                     if clauses or d.get("ret"):
                         body = extract.splice_contract(body, d.get("ret", ""), "\n".join(clauses))
+                    body = annotate_loops(body, loops, exlog)
                     text = extract.transform(wpre, [], "") + body + wsuf
                     exlog["items"].append({"kind": "item", "file": d["file"], "path": d["path"],
                                            "lines": [extract.line_of(src, s), extract.line_of(src, e)],
@@ -152,6 +176,11 @@ def make_canaries(text):
     pieces, last, tags = [], 0, []
     for fm in FN_HEAD.finditer(m):
         if fm.group(1) and "spec" in fm.group(1):
+            continue
+        # external_body stubs are not verified: a canary in them proves nothing (a contradictory
+        # `requires` on a stub makes its callers FAIL, it cannot make anything pass)
+        back = text[max(0, fm.start() - 200):fm.start()]
+        if re.search(r"#\[verifier::external_body\]\s*(?:pub(?:\([a-z]+\))?\s+)?$", back):
             continue
         # header = from fn to body-open brace at paren depth 0
         try:
